@@ -83,8 +83,7 @@ let run (path : string) =
          | Base.Err _ ->
            mismatch ~case:!case ~step:!step ~field:"result" ~model:"err" ~impl:res);
         if res = "panic" then begin
-          let kf = if kf_C17_1 !n then "kf_C17_1" else "none" in
-          predfail ~case:!case ~step:!step ~pred:"no_panic" ~kf ~detail:("UpdatePriceList_panicked_n=" ^ string_of_z !n);
+          predfail ~case:!case ~step:!step ~pred:"no_panic" ~kf:"none" ~detail:("UpdatePriceList_panicked_n=" ^ string_of_z !n);
           dead := true
         end;
         pending_check := true
@@ -111,8 +110,7 @@ let run (path : string) =
            dead := true
          | Base.Err _ -> mismatch ~case:!case ~step:!step ~field:"result" ~model:"err" ~impl:res);
         if res = "panic" then begin
-          let kf = if kf_C17_1 !n then "kf_C17_1" else "none" in
-          predfail ~case:!case ~step:!step ~pred:"no_panic" ~kf ~detail:("BeginBlocker_panicked_n=" ^ string_of_z !n);
+          predfail ~case:!case ~step:!step ~pred:"no_panic" ~kf:"none" ~detail:("BeginBlocker_panicked_n=" ^ string_of_z !n);
           dead := true
         end
       | "o" :: _ as toks when not !dead ->
@@ -136,8 +134,7 @@ let run (path : string) =
         let lp = (try Hashtbl.find lastpos ob.o_id with Not_found -> false) in
         (match impl with Some r when r.active -> case_active := true; bump "obs:active" | Some _ -> bump "obs:inactive" | None -> bump "obs:absent");
         if not (holds_C17_state !n g lp impl) then begin
-          let kf = if kf_C17_1 !n then "kf_C17_1" else if kf_C17_2 !n g then "kf_C17_2" else "none" in
-          predfail ~case:!case ~step:!step ~pred:"holds_C17_state" ~kf ~detail:(S.map (fun c -> if c = ' ' then '_' else c) (show_twa impl))
+          predfail ~case:!case ~step:!step ~pred:"holds_C17_state" ~kf:"none" ~detail:(S.map (fun c -> if c = ' ' then '_' else c) (show_twa impl))
         end
       | _ -> ()
     ) lines;
